@@ -78,6 +78,8 @@ pub enum Op {
     IsEmpty(Option<u32>),
     /// read at SeqNo::MAX
     GetMax(Vec<u8>),
+    /// the next operation is allowed to return an error (reported as `R experr`)
+    ExpectErr,
 }
 
 fn snap_text(s: &Option<u32>) -> String {
@@ -143,6 +145,7 @@ impl Op {
                 s
             }
             Op::Reopen => "reopen".into(),
+            Op::ExpectErr => "expecterr".into(),
             Op::Clock(n) => format!("clock {n}"),
             Op::Verdict(k, v) => format!("verdict {} {v}", hex(k)),
             Op::Snap(n) => format!("snap {n}"),
@@ -208,6 +211,7 @@ impl Op {
                     .collect(),
             ),
             "reopen" => Op::Reopen,
+            "expecterr" => Op::ExpectErr,
             "clock" => Op::Clock(t[1].parse().expect("clock")),
             "verdict" => Op::Verdict(unhex(t[1]), t[2].to_string()),
             "snap" => Op::Snap(t[1].parse().expect("snap")),
